@@ -2,13 +2,13 @@ package main
 
 import (
 	"encoding/json"
-	"sync"
 	"fmt"
 	"math/rand"
 	"net/http"
 	"net/url"
 	"sort"
 	"strings"
+	"sync"
 	"sync/atomic"
 	"time"
 
@@ -72,6 +72,31 @@ func newServeGen(r *Run, rng *rand.Rand) *serveGen {
 	n := pick(r, 300, 3000)
 	for i := 0; i < n; i++ {
 		k := 3 + rng.Intn(3)
+		var t [][3]int
+		for j := 0; j < k; j++ {
+			t = append(t, [3]int{1 + rng.Intn(len(g.EntryMethods)), 1 + rng.Intn(len(g.Pool)), 1 + rng.Intn(3)})
+		}
+		g.Extra = append(g.Extra, t)
+	}
+	return g
+}
+
+// hostname mode: a static host and overlapping parameter hosts above short paths, the same path with and without a
+// trailing slash below different hosts (the per-method lookups behind Allow walk the hostname tree too)
+var servePoolHost = []string{"a.b/a", "a.b/a/", "{h}.b/a", "{h}.b/a/", "a.b/{x}", "/a", "/a/", "a.{g}/a", "{h}.b/*{w}", "a.b/", "/{x}/"}
+
+func newServeGenHost(r *Run, rng *rand.Rand) *serveGen {
+	g := &serveGen{Host: "a.b", MaxTab: 2}
+	pool := append([]string(nil), servePoolHost...)
+	rng.Shuffle(len(pool), func(i, j int) { pool[i], pool[j] = pool[j], pool[i] })
+	g.EnumN = pick(r, 6, 9)
+	g.Pool = pool
+	g.EntryMethods = []string{"GET", "POST", "OPTIONS"}
+	g.ReqMethods = []string{"GET", "POST", "OPTIONS", "FOO"}
+	g.Paths = []string{"/", "/a", "/a/", "/b", "/b/", "/a/b", "*"}
+	n := pick(r, 200, 2000)
+	for i := 0; i < n; i++ {
+		k := 3 + rng.Intn(2)
 		var t [][3]int
 		for j := 0; j < k; j++ {
 			t = append(t, [3]int{1 + rng.Intn(len(g.EntryMethods)), 1 + rng.Intn(len(g.Pool)), 1 + rng.Intn(3)})
@@ -632,7 +657,7 @@ func runServeD2(r *Run, rng *rand.Rand, owner string) {
 	}
 	gen := fmt.Sprintf("---- MODULE Gen_ObsServe ----\nGenTable == <<%s>>\nGenCfg == [noMethod |-> %s, autoOptions |-> %s]\nGenHost == %s\n====\n",
 		strings.Join(table, ",\n  "), tlaBool(noMethod), tlaBool(autoOptions), tlaChars("h.example"))
-	segs := []string{"a", "a:b", "https:evil.com", "a?b", "a#b", "a%b", "a b", "é", "a/b", "日本", "a;b", "a=b&c", "..", ".", "a%2fb", "@", "//x", "a\\b", "%", "?", "#", "end", "d"}
+	segs := []string{"a", "a:b", "https:evil.com", "12:30", ":id", "::1", "_x:y", "1:", ":", "-a:b", "%20a:b", "a?b", "a#b", "a%b", "a b", "é", "a/b", "日本", "a;b", "a=b&c", "..", ".", "a%2fb", "@", "//x", "a\\b", "%", "?", "#", "end", "d"}
 	var obs []map[string]any
 	var desc []string
 	kinds := map[string]int{}
